@@ -28,7 +28,98 @@ def harness_names(overlays, exclude=()):
     return names
 
 
+KQ_NATIVE = """
+// freebsd kevent(2) vocabulary for the Linux-compiled replay of backend_kqueue.go
+type verifKeventT struct {
+	Ident  uint64
+	Filter int16
+	Flags  uint16
+	Fflags uint32
+	Data   int64
+	Udata  *byte
+	Ext    [4]uint64
+}
+
+const (
+	verifNOTE_DELETE = 0x1
+	verifNOTE_WRITE  = 0x2
+	verifNOTE_EXTEND = 0x4
+	verifNOTE_ATTRIB = 0x8
+	verifNOTE_LINK   = 0x10
+	verifNOTE_RENAME = 0x20
+	verifNOTE_REVOKE = 0x40
+	verifEVFILT_READ  = -1
+	verifEVFILT_VNODE = -4
+	verifEV_ADD     = 0x1
+	verifEV_DELETE  = 0x2
+	verifEV_ENABLE  = 0x4
+	verifEV_DISABLE = 0x8
+	verifEV_ONESHOT = 0x10
+	verifEV_CLEAR   = 0x20
+)
+"""
+
+
+def kq_port(txt):
+    """Make a freebsd source file of package fsnotify compile on Linux for the replay."""
+    txt = re.sub(r"^//go:build .*$", "//go:build linux", txt, count=1, flags=re.M)
+    txt = txt.replace("unix.Kevent_t", "verifKeventT")
+    txt = re.sub(r"\bunix\.(NOTE_|EVFILT_|EV_)", r"verif\1", txt)
+    txt = txt.replace("internal.Debug(path.name, &kevent)", "_ = &kevent")
+    i = txt.find("// imports kept alive after seam rewriting")
+    if i >= 0:
+        txt = txt[:i]
+    for name, path in (("unix", "golang.org/x/sys/unix"), ("internal", "github.com/fsnotify/fsnotify/internal"), ("errors", "errors"),
+                       ("runtime", "runtime"), ("sort", "sort"), ("time", "time"), ("sync", "sync"), ("fmt", "fmt"), ("os", "os"), ("filepath", "path/filepath")):
+        if not re.search(r"\b%s\." % name, re.sub(r'"[^"\n]*"', '""', txt)):
+            txt = re.sub(r'^\s*(import\s+)?"%s"\s*$' % re.escape(path), "", txt, flags=re.M)
+    return txt
+
+
+def build_kqueue(root, repo, rdir, run, overlays):
+    """Linux-compiled replay of the kqueue backend: seam-rewritten backend_kqueue.go with the
+    kevent vocabulary substituted, backend_inotify.go and the repository's own tests left out."""
+    pkgdir = os.path.normpath(repo)
+    gen = os.path.join(rdir, "gen")
+    os.makedirs(gen, exist_ok=True)
+    mapping = {}
+    for od in overlays:
+        for f in sorted(os.listdir(od)):
+            if not f.endswith(".go") or f == "intrinsics.go" or f in run.get("exclude", []):
+                continue
+            dst = os.path.join(gen, "h_" + os.path.basename(od) + "_" + f)
+            open(dst, "w").write(kq_port(open(os.path.join(od, f)).read()))
+            mapping[os.path.join(pkgdir, "zz_verif_%s_%s_test.go" % (os.path.basename(od), f[:-3]))] = dst
+    tmpl = open(os.path.join(root, "native", "verif_native.go.txt")).read()
+    hm = "".join('\t"%s": %s,\n' % (h, h) for h in harness_names(overlays, run.get("exclude", [])))
+    nat = tmpl.replace("PKGNAME", "fsnotify").replace("PKGPATH", "github.com/fsnotify/fsnotify").replace("HARNESSMAP", hm) + KQ_NATIVE
+    natf = os.path.join(gen, "verif_native.go")
+    open(natf, "w").write(nat)
+    mapping[os.path.join(pkgdir, "zz_verif_native_test.go")] = natf
+    r = subprocess.run([os.path.join(root, "bin", "gosym"), "rewrite", "-dir", repo, "-pkg", ".", "-goos", "freebsd",
+                        "-seams", os.path.join(root, "seams.json"), "-outdir", gen], env=ENV, capture_output=True, text=True)
+    if r.returncode != 0:
+        return None, "rewrite failed: " + r.stderr[-300:]
+    for orig, new in json.loads(r.stdout.strip().splitlines()[-1]).items():
+        ported = kq_port(open(new).read())
+        open(new, "w").write(ported)
+        mapping[orig] = new
+    # the BSD-only helper file and the files that must not be part of the Linux build
+    sb = os.path.join(gen, "system_bsd.go")
+    open(sb, "w").write(kq_port(open(os.path.join(pkgdir, "system_bsd.go")).read()))
+    mapping[os.path.join(pkgdir, "system_bsd.go")] = sb
+    mapping[os.path.join(pkgdir, "backend_inotify.go")] = ""
+    for f in os.listdir(pkgdir):
+        if f.endswith("_test.go"):
+            mapping[os.path.join(pkgdir, f)] = ""
+    ov = os.path.join(rdir, "overlay.json")
+    json.dump({"Replace": mapping}, open(ov, "w"), indent=1)
+    return ov, None
+
+
 def build(root, repo, rdir, run, overlays):
+    if run.get("goos", "linux") == "freebsd":
+        return build_kqueue(root, repo, rdir, run, overlays)
     goos = run.get("goos", "linux")
     pkg = run.get("pkg", ".")
     pkgdir = os.path.normpath(os.path.join(repo, pkg))
@@ -104,7 +195,7 @@ def classify(out, fail):
 
 
 def replay(root, repo, pid, run, harness, fail, params, overlays):
-    if run.get("goos", "linux") != "linux" or run.get("no_replay"):
+    if run.get("goos", "linux") not in ("linux", "freebsd") or run.get("no_replay"):
         key = hashlib.sha1(json.dumps([harness, fail["outcome"], fail["msg"], fail.get("nondet")], sort_keys=True).encode()).hexdigest()[:10]
         rdir = os.path.join(root, "replays", pid, "%s-%s" % (harness, key))
         os.makedirs(rdir, exist_ok=True)
@@ -126,6 +217,9 @@ def replay(root, repo, pid, run, harness, fail, params, overlays):
         return dict(status="error", dir=rdir, detail=err)
     out = run_native(repo, rdir, run, race=(fail["outcome"] == "race"))
     status, detail = classify(out, fail)
+    if run.get("goos", "linux") == "freebsd" and status == "error":
+        # the Linux-compiled port of the kqueue backend did not build/run: report on the engine's evidence
+        return dict(status="unavailable", dir=rdir, detail="Linux-compiled kqueue replay unavailable: " + detail[-200:])
     if status != "reproduced" and fail.get("preempted") and fail["outcome"] in ("deadlock", "race", "assert", "panic"):
         # The path needs a pre-emption at a point the native run cannot steer (e.g. just before a
         # lock acquisition). Try a few more times under the Go scheduler; if it still does not show,
@@ -173,7 +267,7 @@ def witness_replays(root, repo, pid, run, harness, samples, params, overlays, li
     """Replay solver-produced witness vectors of complete (passing) paths natively:
     the native run with the same inputs must also finish without a violation.
     Returns (agreed, mismatches[list of str])."""
-    if run.get("goos", "linux") != "linux" or run.get("no_replay"):
+    if run.get("goos", "linux") not in ("linux", "freebsd") or run.get("no_replay"):
         return 0, []
     vecs = [s_ for s_ in samples if s_.get("nondet")][:limit]
     if not vecs:
